@@ -182,6 +182,12 @@ def run(ctx):
     cliprop.run_space(ctx, "props.cli_c06", "relocation", relocation_cases(T), chunk=4)
     cliprop.run_space(ctx, "props.cli_c06", "wildcards", glob_cases(T), chunk=8)
     cliprop.run_space(ctx, "props.cli_c06", "print", print_cases(T), chunk=64)
+    # the three library directory policies: every entry of 8 generated archives extracted through lha_reader_extract with the
+    # header's own names; resulting tree compared with the member table (modes and mtimes of directories for the deferring policies)
+    import build
+    from props.C15 import WRAP
+    hb = build.ensure_explorer("hist_explore", "asan", extra_ld=WRAP)
+    ctx.run_space(hb, "histories", ["full=1", "tree=1", "treeonly=1"], cpu_limit=60, shards=4)
     ctx.assumptions += ["extraction model of DESIGN.md appendix E; trees are serialised directory-first and contiguous; runs that involve read-only directories are made as uid 65534 so that permission bits really refuse writes",
                         "excluded as the statement says: dangerous links' targets and the mtimes of directories that receive one; mtimes of implicitly created parent directories"]
     return ctx.finish(
@@ -189,8 +195,8 @@ def run(ctx):
              "'options': 4 fixed trees (flat with lh5/lzs members, nested read-only, links, MacBinary/level-0/1 members) x every ordered option word of up to 2 (3) letters from {f,q0,q1,q2,i,w=OUT,v} x {x,e}; "
              "'overwrite': every subset of pre-existing members x every answer string up to the number of prompts over {y,n,a,s,empty,junk,Yes,N}, plus f/q; 'wildcards': every pattern up to length 3 (4) over {a,b,*,?,/} against 100+ stored paths; 'macbinary': MacLHA members with data/resource fork lengths around multiples of 128 (envelope recognised <=> declared length is the 128-rounded sum) under xf and pq2; 'print': p/pq/pq1 over all trees of up to 3 entries. "
              "Oracle: final tree == model tree on content, mtime, mode & 0777, link target, directory mode and mtime; stdout == banner + bytes for p. non-trivial = runs that created at least one object / printed",
-        replay_fn=lambda rep: cliprop.replay_case(rep))
+        replay_fn=lambda rep: (cliprop.replay_case(rep) if rep.get('kind') == 'cli' else runner.replay_explorer(rep, quiet=True)))
 
 
 def replay(rep):
-    return cliprop.replay_case(rep)
+    return cliprop.replay_case(rep) if rep.get('kind') == 'cli' else runner.replay_explorer(rep)
